@@ -129,6 +129,9 @@ func (c *Ctx) Direct(v Violation) {
 
 // Flush writes the Coq case files and meta.json.
 func (c *Ctx) Flush() error {
+	for _, k := range typesWithoutConstructor {
+		c.Meta.Notes = append(c.Meta.Notes, "no translated constructor for "+k+": the type was left out of this run")
+	}
 	if err := os.MkdirAll(c.Out, 0o755); err != nil {
 		return err
 	}
